@@ -1132,7 +1132,27 @@ def cstring_stubs():
         if a is None or b is None:
             raise Unsupported('std::string::compare(const char*) on text that is not concrete')
         return z3.BitVecVal((a > b) - (a < b), 32)
-    return {'_ZNSt7__cxx1112basic_stringIcSt11char_traitsIcESaIcEEC1EPKcRKS3_': s_string_from_cstr, '_ZNSt7__cxx1112basic_stringIcSt11char_traitsIcESaIcEEC2EPKcRKS3_': s_string_from_cstr,
+    def s_replace(eng, fr, ins, st, name, argv):
+        """std::string::_M_replace(pos, len1, s, len2) used as a whole-string assignment of a short concrete text"""
+        this, pos, len1, src, len2 = argv
+        pos, len2 = z3.simplify(pos), z3.simplify(len2)
+        if not (z3.is_bv_value(pos) and pos.as_long() == 0 and z3.is_bv_value(len2) and len2.as_long() <= 15):
+            raise Unsupported('std::string::_M_replace other than a whole assignment of a short text')
+        n_ = len2.as_long()
+        t = ''
+        if n_:
+            t = _read_cstring(st.mem, src)
+            if t is None:
+                raise Unsupported('std::string assignment from text that is not concrete')
+            t = t[:n_]
+        o = st.mem.o[this.obj]
+        o.cells[this.off] = (Ptr(this.obj, this.off + 16), 8)
+        o.cells[this.off + 8] = (BV(len(t)), 8)
+        for j, ch in enumerate(t.encode() + b'\0'):
+            o.cells[this.off + 16 + j] = (z3.BitVecVal(ch, 8), 1)
+        return this
+    return {'_ZNSt7__cxx1112basic_stringIcSt11char_traitsIcESaIcEE10_M_replaceEmmPKcm': s_replace,
+            '_ZNSt7__cxx1112basic_stringIcSt11char_traitsIcESaIcEEC1EPKcRKS3_': s_string_from_cstr, '_ZNSt7__cxx1112basic_stringIcSt11char_traitsIcESaIcEEC2EPKcRKS3_': s_string_from_cstr,
             '_ZNKSt7__cxx1112basic_stringIcSt11char_traitsIcESaIcEE7compareEPKc': s_compare_cstr}
 
 
@@ -1375,3 +1395,132 @@ _jobs_field = jobs
 
 def jobs(tier):
     return _jobs_field(tier) + [(h_string_append, (n, t), 900) for n in ((0, 3) if tier == 'quick' else (0, 1, 2, 3, 5)) for t in (False, True)]
+
+
+# ------------------------------------------------------------------------------------------------ clear() returns a builder to its initial state
+@guard
+def h_builder_clear(which, k):
+    """RecordBuilder::clear / TupleBuilder::clear with k fields: afterwards the builder is in the state of a freshly made one - in particular the
+    representation invariant holds again: a record builder has exactly one key per field builder (snapshot() pairs them by position), a tuple
+    builder whose field count is still to be announced (length_ == -1) has no field builders (begintuple(n) adds n)"""
+    from .cpp01 import struct_of
+    from .mnode import _string_cells
+    slots, nslots = builder_slots()
+    stubs = dict(COMMON_STUBS)
+    stubs.update(_child_stubs(slots))
+    cleared = []
+
+    def s_clear(eng, fr, ins, st, name, argv):
+        cleared.append(st.pc)
+        return None
+    stubs['vf$slot%d' % slots['5clearEv']] = s_clear
+    stubs.update({k_: v_ for k_, v_ in cstring_stubs().items() if '_M_replace' in k_})
+    if which == 'record':
+        mod = module_of(RB)
+        fo = mod.types.struct_layout(struct_of(mod, '_ZN7awkward13RecordBuilder9endrecordEv'))[0]
+        m = MCtx([RB, GB], unwind=k + 8, stubs=stubs)
+    else:
+        mod = module_of(TB)
+        fo = mod.types.struct_layout(struct_of(mod, '_ZN7awkward12TupleBuilder5indexEl'))[0]
+        m = MCtx([TB, GB], unwind=k + 8, stubs=stubs)
+    m.record('fakevt', {8 * j: (Ptr(('func', 'vf$slot%d' % j), 0), 8) for j in range(nslots)}, const=True)
+    length = m.bv('length')
+    m.assume(length >= 0, length <= 2 ** 40)
+    kc, sc, pc_ = {}, {}, {}
+    for i in range(k):
+        m.record('kid%d' % i, {0: (Ptr('fakevt', 0), 8), 8: (NULL, 8), 16: (NULL, 8), 32: (length, 8)})
+        kc[16 * i] = (Ptr('kid%d' % i, 0), 8); kc[16 * i + 8] = (NULL, 8)
+        _string_cells(sc, 32 * i, 'keysbuf', 'f%d' % i)
+        pc_[8 * i] = (NULL, 8)
+    m.record('kidsbuf', kc); m.record('keysbuf', sc); m.record('ptrsbuf', pc_)
+    m.record('ctrl', {0: (NULL, 8), 8: (z3.BitVecVal(1, 32), 4), 12: (z3.BitVecVal(1, 32), 4)})
+    st0 = State({}, m.mem, z3.BoolVal(True))
+
+    def vec(buf, nbytes):
+        return [(Ptr(buf, 0) if k else NULL, 8), (Ptr(buf, nbytes) if k else NULL, 8), (Ptr(buf, nbytes) if k else NULL, 8)]
+    if which == 'record':
+        vt = m.eng.global_ptr(st0, '@_ZTVN7awkward13RecordBuilderE', mod)
+        cells = {0: (Ptr(vt.obj, 16), 8), 8: (Ptr('b', 0), 8), 16: (Ptr('ctrl', 0), 8), fo[1]: (BV(8), 8), fo[1] + 8: (z3.FPVal(1.5, z3.Float64()), 8),
+                 fo[6]: (NULL, 8), fo[7]: (length, 8), fo[8]: (z3.BitVecVal(0, 8), 1), fo[9]: (BV(-1), 8), fo[10]: (BV(0), 8), fo[11]: (BV(k), 8)}
+        for base, (buf, per) in ((fo[2], ('kidsbuf', 16)), (fo[3], ('keysbuf', 32)), (fo[4], ('ptrsbuf', 8))):
+            for j, c in enumerate(vec(buf, per * k)):
+                cells[base + 8 * j] = c
+        _string_cells(cells, fo[5], 'b', '')
+        sym = '_ZN7awkward13RecordBuilder5clearEv'
+    else:
+        vt = m.eng.global_ptr(st0, '@_ZTVN7awkward12TupleBuilderE', mod)
+        cells = {0: (Ptr(vt.obj, 16), 8), 8: (Ptr('b', 0), 8), 16: (Ptr('ctrl', 0), 8), fo[1]: (BV(8), 8), fo[1] + 8: (z3.FPVal(1.5, z3.Float64()), 8),
+                 fo[3]: (length, 8), fo[4]: (z3.BitVecVal(0, 8), 1), fo[5]: (BV(-1), 8)}
+        for j, c in enumerate(vec('kidsbuf', 16 * k)):
+            cells[fo[2] + 8 * j] = c
+        sym = '_ZN7awkward12TupleBuilder5clearEv'
+    this = m.record('b', cells)
+    out = m.call(sym, [this])
+    o = out.mem.o['b']
+    st1 = State({}, out.mem, z3.BoolVal(True))
+
+    def vsize(base):
+        b_, e_ = o.cells[base][0], o.cells[base + 8][0]
+        return z3.simplify(m.eng.ptrtoint_sized(st1, e_) - m.eng.ptrtoint_sized(st1, b_))
+    obls = [('clear does not raise', out.raised)]
+    if which == 'record':
+        obls += [('after clear the number of keys is the number of field builders', z3.UDiv(vsize(fo[2]), BV(16)) != z3.UDiv(vsize(fo[3]), BV(32))),
+                 ('after clear keys_size_ is the number of keys', o.cells[fo[11]][0] != z3.UDiv(vsize(fo[3]), BV(32))),
+                 ('after clear no record has been closed and none is open', z3.Or(o.cells[fo[7]][0] != -1, o.cells[fo[8]][0] != 0))]
+    else:
+        obls += [('a tuple builder that waits for its field count has no field builders', z3.And(o.cells[fo[3]][0] == -1, vsize(fo[2]) != 0)),
+                 ('after clear no tuple has been closed and none is open', z3.Or(o.cells[fo[3]][0] != -1, o.cells[fo[4]][0] != 0))]
+
+    def replay(model, ent_):
+        import subprocess, os
+        drv = r'''
+#include <cstdio>
+#include <cstdlib>
+#include <string>
+#include "awkward/builder/ArrayBuilder.h"
+#include "awkward/builder/ArrayBuilderOptions.h"
+#include "awkward/Content.h"
+using namespace awkward;
+int main(int argc, char** argv) {
+  std::string which = argv[1]; int k = atoi(argv[2]);
+  ArrayBuilder a(ArrayBuilderOptions(8, 1.5)), f(ArrayBuilderOptions(8, 1.5));
+  auto fill = [&](ArrayBuilder& b, int base) {
+    if (which == "record") { b.beginrecord(); for (int i = 0; i < k; i++) { std::string key = "g" + std::to_string(i); b.field_check(key.c_str()); b.integer(base + i); } b.endrecord(); }
+    else { b.begintuple(k); for (int i = 0; i < k; i++) { b.index(i); b.integer(base + i); } b.endtuple(); }
+  };
+  try {
+    // first use with other field names / the same field count, then clear, then the same history as a fresh builder
+    if (which == "record") { a.beginrecord(); for (int i = 0; i < k; i++) { std::string key = "f" + std::to_string(i); a.field_check(key.c_str()); a.integer(i); } a.endrecord(); }
+    else fill(a, 0);
+    a.clear();
+    fill(a, 10); fill(f, 10);
+    std::string ja = a.snapshot().get()->tojson(false, -1), jf = f.snapshot().get()->tojson(false, -1);
+    std::string ta = a.snapshot().get()->validityerror("a");
+    int bad = (ja != jf) ? 1 : 0;
+    if (!ta.empty()) bad |= 2;
+    if (a.snapshot().get()->classname() != f.snapshot().get()->classname()) bad |= 4;
+    printf("bad=%d cleared=%s fresh=%s\n", bad, ja.c_str(), jf.c_str());
+    return bad ? 1 : 0;
+  } catch (std::exception& e) { printf("bad=8 raised %.60s\n", e.what()); return 1; }
+}
+'''
+        try:
+            exe = fullnative_link(drv)
+        except Exception as e:      # noqa
+            return False, 'replay driver did not build: %s' % str(e)[-600:], {}
+        r = subprocess.run([exe, which, str(k)], capture_output=True, text=True, timeout=30,
+                           env=dict(os.environ, ASAN_OPTIONS='detect_leaks=0', UBSAN_OPTIONS='halt_on_error=1:exitcode=87'), errors='replace')
+        payload = dict(which=which, fields=k, native=r.stdout.strip()[:300])
+        if r.returncode != 0:
+            return True, '%s builder with %d fields: fill, clear, fill again vs a fresh builder: %s %s (1 = different value, 4 = different type, crash otherwise)' % (
+                which, k, r.stdout.strip()[:200], [l[:140] for l in r.stderr.splitlines() if 'ERROR' in l or 'runtime error' in l][:1]), payload
+        return False, 'native builders agree (%s)' % r.stdout.strip()[:120], payload
+    return mdischarge(m, '%sBuilder::clear with %d fields' % ('Record' if which == 'record' else 'Tuple', k), obls, [], replay=replay,
+                      extra=dict(bounds='%d fields (case split), any number of closed records / tuples' % k))
+
+
+_jobs_string = jobs
+
+
+def jobs(tier):
+    return _jobs_string(tier) + [(h_builder_clear, (w, k), 900) for w in ('record', 'tuple') for k in ((0, 2) if tier == 'quick' else (0, 1, 2, 3))]
